@@ -441,6 +441,40 @@ func (s *service) getValidators(txes ...dbft.Transaction[util.Uint256]) []dbft.P
   [("pkg/core/state/notification_event.go", [rn("vmState", "wireState")])]),
  ("threshold-rename", ["C19", "C06"], "newBlockFromContext: the validators local renamed",
   [("pkg/consensus/consensus.go", [("	var validators = s.Chain.ComputeNextBlockValidators()\n	script, err := smartcontract.CreateDefaultMultiSigRedeemScript(validators)", "	var nextVals = s.Chain.ComputeNextBlockValidators()\n	script, err := smartcontract.CreateDefaultMultiSigRedeemScript(nextVals)")])]),
+ # ---- fourth batch: edits aimed at the rules of round 5 ----
+ ("r5-trie-curr-renamed", ["C11", "C10"], "batch.go/trie.go: the node parameter `curr` of the structural functions renamed",
+  [("pkg/core/mpt/batch.go", [rn("curr", "node0")]), ("pkg/core/mpt/trie.go", [rn("curr", "node0")])]),
+ ("r5-billet-flag-renamed", ["C10", "C20"], "Billet.keepExpanded renamed",
+  [("pkg/core/mpt/billet.go", [rn("keepExpanded", "leaveAsIs")]), ("pkg/core/mpt/trie.go", [rn("keepExpanded", "leaveAsIs")])]),
+ ("r5-bigint-locals-renamed", ["C13"], "bigint.ToPreallocatedBytes: locals carry/nonZero renamed",
+  [("pkg/encoding/bigint/bigint.go", [rn("carry", "borrowOrCarry"), rn("nonZero", "anyBit"), ("bits := n.Bits()", "bits := n.Bits() // the magnitude, least significant word first")])]),
+ ("r5-equal-budget-renamed", ["C13", "C12"], "equalStruct: budget parameter renamed and its test written the other way round",
+  [("pkg/vm/stackitem/item.go", [rn("maxComparableSize", "sizeBudget"), ("if *sizeBudget == 0 {", "if 0 == *sizeBudget {")])]),
+ ("r5-assertmsg-local-renamed", ["C13", "C12"], "ASSERTMSG arm: the message local renamed",
+  [("pkg/vm/vm.go", [("		msg := v.estack.Pop().String()\n		if !v.estack.Pop().Bool() {\n			panic(fmt.Sprintf(\"%s is executed with false result. Reason: %s\", op, msg))", "		reason := v.estack.Pop().String()\n		if !v.estack.Pop().Bool() {\n			panic(fmt.Sprintf(\"%s is executed with false result. Reason: %s\", op, reason))")])]),
+ ("r5-whitelist-param-renamed", ["C19"], "updateExtensibleWhitelist: the height parameter renamed and copied into a local first",
+  [("pkg/core/blockchain.go", [("func (bc *Blockchain) updateExtensibleWhitelist(height uint32) error {\n	updateCommittee := bc.config.ShouldUpdateCommitteeAt(height)", "func (bc *Blockchain) updateExtensibleWhitelist(height uint32) error {\n	stored := height\n	updateCommittee := bc.config.ShouldUpdateCommitteeAt(stored)")])]),
+ ("r5-relevance-checks-reordered", ["C06", "C07", "C19"], "IsTxStillRelevant: the fee test moved before the policy test, fee floor computed into a local",
+  [("pkg/core/blockchain.go", [("""	if bc.policy.CheckPolicy(bc.dao, t) != nil {
+		return false
+	}
+	if t.NetworkFee < int64(t.Size())*bc.FeePerByte()+bc.CalculateAttributesFee(t) {
+		return false
+	}""", """	floor := int64(t.Size())*bc.FeePerByte() + bc.CalculateAttributesFee(t)
+	if t.NetworkFee < floor {
+		return false
+	}
+	if policyErr := bc.policy.CheckPolicy(bc.dao, t); policyErr != nil {
+		return false
+	}""")])]),
+ ("r5-block-hash-sets-renamed", ["C06", "C19"], "AddBlock / verifyBlock: the sets of in-block hashes renamed",
+  [("pkg/core/blockchain.go", [rn("seen", "blockHashes")]), ("pkg/consensus/consensus.go", [rn("inBlock", "proposed")])]),
+ ("r5-statesync-store-tx-via-local", ["C20"], "statesync.AddBlock: the transaction loop binds the index to a local (the nil result stays nil)",
+  [("pkg/core/statesync/module.go", [("		if err := cache.StoreAsTransaction(tx, block.Index, nil); err != nil {", "		idx := block.Index\n		if err := cache.StoreAsTransaction(tx, idx, nil); err != nil {")])]),
+ ("r5-restorenode-paths-local", ["C11", "C20"], "statesync.restoreNode: the accumulated children paths go through a local before being stored back",
+  [("pkg/core/statesync/module.go", [("			childrenPaths[h] = append(childrenPaths[h], paths...) // it's OK to have duplicates, they'll be handled by mempool", "			merged := append(childrenPaths[h], paths...) // it's OK to have duplicates, they'll be handled by mempool\n			childrenPaths[h] = merged")])]),
+ ("r5-putbatchintoleaf-hash-captured", ["C11", "C10"], "putBatchIntoLeaf: the released node's hash and bytes captured in locals first",
+  [("pkg/core/mpt/batch.go", [("	t.removeRef(curr.Hash(), curr.Bytes())\n", "	oldHash, oldBytes := curr.Hash(), curr.Bytes()\n	t.removeRef(oldHash, oldBytes)\n")])]),
 ]
 
 out = "/verif/benign"
